@@ -18,7 +18,7 @@ import z3
 from vt import loader, strlang
 from vt import strlang_ext as sx
 from vt.common import HarnessError
-from vt.strlang_ext import ALL, EPS, Rx, alt, cat, cset, lit, loop, nset, rng, star
+from vt.strlang_ext import ALL, EPS, Rx, alt, cat, cset, inter, lit, loop, nset, opt, rng, star
 
 PARSER = 'hail/hail/src/is/hail/expr/ir/Parser.scala'
 ESCUTILS = 'hail/hail/utils/src/is/hail/utils/StringEscapeUtils.scala'
@@ -207,29 +207,76 @@ def engine_half(R, m, names):
              'harness/C31_engine.py; no Scala code runs',
              'JavaTokenParsers.ident is isJavaIdentifierStart isJavaIdentifierPart* over UTF-16 chars (astral characters are '
              'never identifier characters); tables come from the installed JDK',
-             'Integer.parseInt also accepts a sign in the 4 \\u digits; the accept language leaves those forms out (under-approximation, '
-             'the safe direction for the inclusion)')
+             'Integer.parseInt accepts an optional sign in the 4 \\u characters (modelled) and non-ASCII Unicode digits (not modelled)',
+             'escape_id / escape_str are NOT modelled: the per-code-point escape is tabulated from the real escape_id over all code '
+             'points each run and the emitted-token language is built from the shapes found (\\u + k hex digits per position)')
 
     # ---- languages -----------------------------------------------------------------------------------------------
-    escs = sorted(L['escape_chars'] - {'u'})
+    # stage 1 (quotedLiteral): after a backslash any escapeChars member is taken verbatim, a raw delimiter ends the token;
+    # stage 2 (unescapeString on the collected text): `\\` + arm character, or `\\u` + exactly 4 characters that
+    # Integer.parseInt(_, 16) accepts (optional sign); any other escape is fatal; a `\\u` with fewer than 4 characters left
+    # before the end is silently dropped (the loop just ends) — that is what the source does, and the model follows it
     HEXANY = cset([rng('0', '9'), rng('a', 'f'), rng('A', 'F')])
-    unit = [nset('`\\')] + [lit('\\' + c) for c in escs]
-    if 'u' in L['escape_chars']:
-        unit.append(cat(lit('\\u'), loop(HEXANY, 4, 4)))
-    bad_arm = [c for c in escs if c not in L['arms']]
-    if bad_arm:
-        raise HarnessError(f'escapeChars {bad_arm} have no arm in unescapeString')
-    BACKTICK = cat(lit('`'), star(alt(*unit)), lit('`'))
+    esc_set = cset(''.join(sorted(L['escape_chars'])))
+    tokenscan = star(alt(nset('`\\'), cat(lit('\\'), esc_set)))
+    arm_set = cset(''.join(sorted(L['arms'])))
+    any1 = Rx('set', ((0, strlang.PYMAX),))
+    hex4 = alt(loop(HEXANY, 4, 4), cat(cset('+-'), loop(HEXANY, 3, 3)))
+    unesc_ok = cat(star(alt(nset('\\'), cat(lit('\\'), arm_set), cat(lit('\\u'), hex4))), opt(cat(lit('\\u'), loop(any1, 0, 3))))
+    if 'u' in L['arms']:
+        raise HarnessError('unescapeString has a plain arm for u')
+    BACKTICK = cat(lit('`'), inter(tokenscan, unesc_ok), lit('`'))
     JID = cat(Rx('set', tuple(tabs['identStart'])), star(Rx('set', tuple(tabs['identPart']))))
     LEX = alt(BACKTICK, JID)
-    # python emitters
-    HEXU = cset([rng('0', '9'), rng('A', 'F')])
-    idtok_ok = alt(Rx('set', tuple(strlang.rs_norm([(0x20, 0x5b), (0x5d, 0x5f), (0x61, 0x7e)]))), lit('\\\\'), lit('\\`'),
-                   lit('\\b'), lit('\\n'), lit('\\t'), lit('\\f'), lit('\\r'), cat(lit('\\u'), loop(HEXU, 4, 4)))
-    idtok_astral = cat(lit('\\u'), alt(cat(cset([rng('1', '9'), rng('A', 'F')]), loop(HEXU, 4, 4)), cat(lit('10'), loop(HEXU, 4, 4))))
+    # python emitter escape_id: tabulated from the REAL function, one token per code point
+    tok_of = {}
+    for c in range(0x110000):
+        if 0xD800 <= c <= 0xDFFF:
+            continue
+        e = M.escape_id(' ' + chr(c))
+        if not (e.startswith('` ') and e.endswith('`') and len(e) > 3):
+            raise HarnessError(f'escape_id(" " + U+{c:04X}) = {e!r} is not a backtick form starting with the space')
+        tok_of[c] = e[2:-1]
+    R.validation_points += len(tok_of)
+    for nm_ in names:            # whole-string behaviour: concatenation of the per-character tokens (or the name itself)
+        e = M.escape_id(nm_)
+        if e != nm_ and e != '`' + ''.join(tok_of[ord(ch)] for ch in nm_) + '`':
+            raise HarnessError(f'escape_id({nm_!r}) = {e!r} is not the concatenation of its per-character escapes')
+    shapes = {}          # (prefix, ndigits) -> [set of chars per position], members
+    literal_toks = {}
+    for c, t in tok_of.items():
+        mm_ = re.fullmatch(r'(\\[A-Za-z])([0-9A-Fa-f]+)', t)
+        if mm_ and len(mm_.group(2)) >= 2:
+            key = (mm_.group(1), len(mm_.group(2)))
+            ent = shapes.setdefault(key, ([set() for _ in mm_.group(2)], [], [True]))
+            if c <= 0xFFFF:
+                ent[2][0] = False
+            for i_, ch in enumerate(mm_.group(2)):
+                ent[0][i_].add(ch)
+            if len(ent[1]) < 3 or c > 0xFFFF and all(x <= 0xFFFF for x in ent[1][:3]):
+                ent[1].append(c)
+        else:
+            literal_toks.setdefault(t, c)
+    if len(literal_toks) > 400:
+        raise HarnessError(f'escape_id emits {len(literal_toks)} distinct non-hex tokens: shape generalisation failed')
+    tok_rx = {}
+    for t in literal_toks:
+        tok_rx[('lit', t)] = lit(t)
+    for (pre, nd), (pos, mem, _a) in shapes.items():
+        tok_rx[(pre, nd)] = cat(lit(pre), *[cset(''.join(sorted(p_))) for p_ in pos])
+    astral_keys = [k for k, v in shapes.items() if v[2][0]]
+    idtok_all = alt(*tok_rx.values())
+    idtok_astral = alt(*[tok_rx[k] for k in astral_keys]) if astral_keys else Rx('empty')
+    idtok_ok = alt(*[v for k, v in tok_rx.items() if k not in astral_keys])
+    exemplars_id = []
+    for (pre, nd), (pos, mem, _a) in sorted(shapes.items()):
+        for c in mem[:2]:
+            exemplars_id += [chr(c) + 'z', chr(c) + '0', chr(c) + 'b', chr(c)]
+    R.sample({'escape_id_token_shapes': {f'{k[0]}+{k[1]} hex digits': [f'U+{c:04X}' for c in v[1][:3]] for k, v in shapes.items()},
+              'escape_id_literal_tokens': len(literal_toks)})
     region = {
         'x-escape': cat(ALL(), lit('\\x'), ALL()), 'U-escape': cat(ALL(), lit('\\U'), ALL()),
-        'raw': nset('`'), 'any1': Rx('set', ((0, strlang.PYMAX),)), 'astral-u': cat(ALL(), idtok_astral, ALL()),
+        'raw': nset('`'), 'any1': Rx('set', ((0, strlang.PYMAX),)),
     }
     import re._constants as _sc
     from vt.strlang_ext import rs_minus
@@ -246,8 +293,8 @@ def engine_half(R, m, names):
         cs.extend(pcs)
         Z = {'P': Pz, 'PID': rt.language(id_simple_pat, 'fullmatch'),
              'TOK': sx.to_z3(N.tok_lang(), cs, red), 'LEX': sx.to_z3(LEX, cs, red), 'JID': sx.to_z3(JID, cs, red),
-             'BACKTICK': sx.to_z3(BACKTICK, cs, red), 'IDTOK': sx.to_z3(alt(idtok_ok, idtok_astral), cs, red),
-             'IDTOK_OK': sx.to_z3(idtok_ok, cs, red)}
+             'BACKTICK': sx.to_z3(BACKTICK, cs, red), 'IDTOK': sx.to_z3(idtok_all, cs, red),
+             'IDTOK_OK': sx.to_z3(idtok_ok, cs, red), 'IDTOK_ASTRAL': sx.to_z3(idtok_astral, cs, red)}
         for k, x in region.items():
             Z['r:' + k] = sx.to_z3(x, cs, red)
         return Z, cs
@@ -280,13 +327,7 @@ def engine_half(R, m, names):
             acc = False
         if acc != red.in_lang(Z['LEX'], w):
             raise HarnessError(f'lexer accept language disagrees with the concrete lexer rule on {w!r}: rule={acc}')
-    # escape_id per-code-point model vs the real function
-    for c in list(range(0, 0x3000)) + list(range(0xD7F0, 0xD800)) + list(range(0xE000, 0xE010)) + [0xFFFF, 0x10000, 0x1F600, 0x10FFFF]:
-        R.validation_points += 1
-        e = M.escape_id(' ' + chr(c))
-        if e != '` ' + escid_model(c) + '`':
-            raise HarnessError(f'escape_id model disagrees with the real function on U+{c:04X}: {e!r}')
-    R.ob('engine(model): lexer accept language == concrete evaluation of the extracted rule; escape_id model == real function',
+    R.ob('engine(model): lexer accept language == concrete evaluation of the extracted rule; escape_id tokens tabulated from the real function',
          'discharged', time.time() - t0, {'points': len(pts)}, nontrivial=True)
 
     # ---- obligations ------------------------------------------------------------------------------------------------
@@ -357,7 +398,7 @@ def engine_half(R, m, names):
            J.escape_parsable, Z['P'])
     # IR identifiers (escape_id)
     decide('engine(model): escaped IR identifiers are accepted by the lexer', z3.Intersect(EMIT_I_ESC, notlex),
-           'engine-lexer-rejects-escaped-identifier', 'escape_id', M.escape_id, EMIT_I_ESC)
+           'engine-lexer-rejects-escaped-identifier', 'escape_id', M.escape_id, EMIT_I_ESC, exemplars=exemplars_id)
     decide('engine(model): IR identifiers emitted as-is are Java identifiers (apart from names with a \\w character outside Java '
            'identifier-part)', z3.Intersect(Z['PID'], z3.Complement(Z['JID']), z3.Complement(kw)),
            'engine-lexer-rejects-raw-identifier', 'escape_id', M.escape_id, Z['PID'])
@@ -365,31 +406,45 @@ def engine_half(R, m, names):
            z3.Intersect(Z['PID'], z3.Complement(Z['JID']), kw), 'engine-ident-narrower-than-python-word-ir-id', 'escape_id',
            M.escape_id, Z['PID'])
     # the escape_id token code must be a prefix code, otherwise two different names emit the same text
-    def ambiguous(w):
-        try:
-            c = int(w[2:], 16)
-        except ValueError:
-            raise HarnessError(f'unexpected prefix-code witness {w!r}')
-        if not (w.startswith('\\u') and 0xFFFF < c <= 0x10FFFF):
-            raise HarnessError(f'unexpected prefix-code witness {w!r}')
-        nm = ' ' + chr(c)
-        text = M.escape_id(nm)
-        ok, why = lexes_as(text, nm, L, tabs)
-        other = ' ' + chr(int(w[2:6], 16)) + w[6:]
-        if ok or M.escape_id(other) != text:
-            raise HarnessError(f'prefix-code witness {w!r} does not reproduce on the real escape_id')
-        return R.finding('engine-decodes-astral-ir-identifier-differently',
-                         f'[model-level] escape_id({nm!r}) = {text!r} = escape_id({other!r}): {why}',
-                         {'kind': 'engine', 'emitter': 'escape_id', 'name': nm})
+    cp_of = {}
+    for c, t in tok_of.items():
+        cp_of.setdefault(t, c)
 
-    r0, w0, dt0 = member(z3.Intersect(Z['IDTOK'], z3.Concat(Z['IDTOK'], z3.Plus(Z['r:any1']))))
-    nm_ = 'engine(model): escape_id escapes form a prefix code (different names never emit the same text; \\uXXXXX vs \\uXXXX+digit)'
-    if r0 == 'unsat':
-        R.ob(nm_, 'discharged', dt0, nontrivial=True)
-    elif r0 == 'sat':
-        R.ob(nm_, ambiguous(w0), dt0, {'witness': w0}, nontrivial=True)
-    else:
-        R.ob(nm_, 'not_discharged', dt0, {'solver': r0})
+    def ambiguous(cls):
+        def f(w):
+            # w is (in shape) a token with a proper prefix that is a token as well; find real members of that kind
+            cands = [w] + [tok_of[c] for c in sorted(tok_of) if (c > 0xFFFF) == (cls.startswith('engine-decodes-astral'))
+                           and len(tok_of[c]) > 3][:20000:97]
+            for t in cands:
+                if t not in cp_of:
+                    continue
+                for k in range(1, len(t)):
+                    if t[:k] in cp_of and all(ch in cp_of for ch in t[k:]):
+                        nm = ' ' + chr(cp_of[t])
+                        other = ' ' + chr(cp_of[t[:k]]) + ''.join(chr(cp_of[ch]) for ch in t[k:])
+                        text = M.escape_id(nm)
+                        if other != nm and M.escape_id(other) == text:
+                            ok1, why1 = lexes_as(text, nm, L, tabs)
+                            ok2, why2 = lexes_as(text, other, L, tabs)
+                            bad_nm, why = (nm, why1) if not ok1 else (other, why2)
+                            return R.finding(cls, f'[model-level] escape_id({nm!r}) = {text!r} = escape_id({other!r}): {why}',
+                                             {'kind': 'engine', 'emitter': 'escape_id', 'name': bad_nm})
+            raise HarnessError(f'prefix-code witness {w!r} does not reproduce on the real escape_id')
+        return f
+
+    tail = z3.Plus(Z['r:any1'])
+    for nm_, z_, cls in (
+            ('engine(model): escape_id escapes of BMP characters form a prefix code (different names never emit the same text)',
+             z3.Intersect(Z['IDTOK_OK'], z3.Concat(Z['IDTOK'], tail)), 'engine-ir-identifier-escape-ambiguous'),
+            ('engine(model): escape_id escapes of astral characters are not extensions of other escapes (\\uXXXXX vs \\uXXXX+digit)',
+             z3.Intersect(Z['IDTOK_ASTRAL'], z3.Concat(Z['IDTOK'], tail)), 'engine-decodes-astral-ir-identifier-differently')):
+        r0, w0, dt0 = member(z_)
+        if r0 == 'unsat':
+            R.ob(nm_, 'discharged', dt0, nontrivial=True)
+        elif r0 == 'sat':
+            R.ob(nm_, ambiguous(cls)(w0), dt0, {'witness': w0}, nontrivial=True)
+        else:
+            R.ob(nm_, 'not_discharged', dt0, {'solver': r0})
 
     # decoded name agrees, per code point, for every escape the lexer accepts (tabulated on the real emitters)
     t1 = time.time()
@@ -398,7 +453,7 @@ def engine_half(R, m, names):
     for c in range(0x110000):
         if 0xD800 <= c <= 0xDFFF:
             continue
-        for emitter, body in (('escape_parsable', N.esc_model(c)), ('escape_id', escid_model(c))):
+        for emitter, body in (('escape_parsable', N.esc_model(c)), ('escape_id', tok_of[c])):
             n += 1
             try:
                 got = unescape_string(body, L)
